@@ -77,6 +77,8 @@ type FEnc struct {
 	checked      bool // arithmetic overflow obligations
 	phiSubst     map[*ssa.Phi]*Val
 	roCapture    map[*ssa.Alloc]bool
+	epochRefs    map[int][]keepRef // arrays private to this function whose content survives the havoc that started the epoch
+	privArr      map[*ssa.MakeSlice]int // 0 unknown, 1 private candidate (never stored, captured or sent), 2 escapes
 	entryPtrs    []string // pointer values that existed when the function was entered (parameters, loads from the entry heap)
 	entryPtrSeen map[string]bool
 	loops        map[*ssa.BasicBlock]*loopInfo
@@ -123,6 +125,13 @@ type FEnc struct {
 	rangeGhost   map[*ssa.Range]int // map iteration -> ghost cell holding the set of keys visited so far
 	mergeTarget  *State             // state being built at a join (for merge objects)
 	mergeSources []*State           // predecessor exit states, parallel to the values being merged
+}
+
+// keepRef: at the start of an epoch the content of array `ref` in heap `name` is what it was in `pred`/`heap`.
+type keepRef struct {
+	name, ref string
+	pred      int
+	heap      map[string]string
 }
 
 type epochKeep struct {
@@ -389,7 +398,150 @@ func (e *FEnc) epochHeap(name, sort string, epoch int) string {
 		}
 		e.fact(implies(pe.cond, eq(n, pt)))
 	}
+	for _, kr := range e.epochRefs[epoch] {
+		if kr.name != name {
+			continue
+		}
+		var pt string
+		if t, ok := kr.heap[name]; ok {
+			pt = t
+		} else {
+			pt = e.epochHeap(name, sort, kr.pred)
+		}
+		e.fact(fmt.Sprintf("(= (select %s %s) (select %s %s))", n, kr.ref, pt, kr.ref))
+	}
 	return n
+}
+
+// privateArrays: slices made by this function (make) that were never stored anywhere, captured or sent, and that are
+// not handed to the call `in`: the callee cannot reach them (callees do not retain pointers to what they were handed
+// earlier), so their elements are the same after the call. Only allocations that dominate the call are considered.
+func (e *FEnc) privateArrays(in ssa.Instruction) []*ssa.MakeSlice {
+	var out []*ssa.MakeSlice
+	if e.privArr == nil {
+		e.privArr = map[*ssa.MakeSlice]int{}
+	}
+	ci, ok := in.(ssa.CallInstruction)
+	if !ok {
+		return nil
+	}
+	for _, b := range e.fn.Blocks {
+		for bi, x := range b.Instrs {
+			m, ok := x.(*ssa.MakeSlice)
+			if !ok {
+				continue
+			}
+			if !(b.Dominates(in.Block()) && (b != in.Block() || before(b, bi, in))) {
+				continue
+			}
+			if e.privArr[m] == 0 {
+				e.privArr[m] = 1
+				if escapesStatic(m, map[ssa.Value]bool{}) {
+					e.privArr[m] = 2
+				}
+			}
+			if e.privArr[m] != 1 {
+				continue
+			}
+			handed := false
+			for _, a := range ci.Common().Args {
+				if derivedFrom(a, m, 0) {
+					handed = true
+				}
+			}
+			if !handed {
+				out = append(out, m)
+			}
+		}
+	}
+	return out
+}
+
+func before(b *ssa.BasicBlock, idx int, in ssa.Instruction) bool {
+	for i, x := range b.Instrs {
+		if x == in {
+			return idx < i
+		}
+	}
+	return false
+}
+
+// derivedFrom: v is m or a reslice / conversion / phi of it.
+func derivedFrom(v ssa.Value, m *ssa.MakeSlice, depth int) bool {
+	if depth > 6 {
+		return true // give up: treat as derived
+	}
+	switch x := v.(type) {
+	case *ssa.MakeSlice:
+		return x == m
+	case *ssa.Slice:
+		return derivedFrom(x.X, m, depth+1)
+	case *ssa.ChangeType:
+		return derivedFrom(x.X, m, depth+1)
+	case *ssa.MakeInterface:
+		return derivedFrom(x.X, m, depth+1)
+	case *ssa.Phi:
+		for _, ed := range x.Edges {
+			if derivedFrom(ed, m, depth+1) {
+				return true
+			}
+		}
+	}
+	return false
+}
+
+// escapesStatic: some use of the slice (or of a reslice of it) stores it, captures it, sends it, returns it in a way
+// that lets other code keep it, or uses it in a way this analysis does not follow.
+func escapesStatic(v ssa.Value, seen map[ssa.Value]bool) bool {
+	if seen[v] {
+		return false
+	}
+	seen[v] = true
+	refs := v.Referrers()
+	if refs == nil {
+		return true
+	}
+	for _, r := range *refs {
+		switch x := r.(type) {
+		case *ssa.Store:
+			if x.Val == v {
+				return true
+			}
+		case *ssa.MapUpdate, *ssa.MakeClosure, *ssa.Send, *ssa.Return, *ssa.Go, *ssa.Defer:
+			return true
+		case *ssa.Slice:
+			if escapesStatic(x, seen) {
+				return true
+			}
+		case *ssa.ChangeType:
+			if escapesStatic(x, seen) {
+				return true
+			}
+		case *ssa.MakeInterface:
+			if escapesStatic(x, seen) {
+				return true
+			}
+		case *ssa.Phi:
+			if escapesStatic(x, seen) {
+				return true
+			}
+		case *ssa.Call:
+			if bi, ok := x.Call.Value.(*ssa.Builtin); ok && bi.Name() == "append" {
+				if len(x.Call.Args) > 0 && x.Call.Args[0] == v {
+					if escapesStatic(x, seen) { // the result may share the array
+						return true
+					}
+				} else {
+					return true // appended as an element / spread into another slice
+				}
+			}
+			// other calls: the callee may write the elements during the call but does not keep the slice
+		case *ssa.IndexAddr, *ssa.Index, *ssa.DebugRef, *ssa.Range, *ssa.UnOp, *ssa.BinOp, *ssa.Lookup:
+		default:
+			return true
+		}
+	}
+	return false
 }
 
 func (e *FEnc) heapSet(st *State, name, sort, term string) {
